@@ -87,6 +87,8 @@ func FSRunHistory(c FSCfg, hist []string, c15 bool, scratch string) (viol string
 				v = w.Advance(time.Nanosecond)
 			case op == "+31ms":
 				v = w.Advance(31 * time.Millisecond)
+			case op == "+16ms":
+				v = w.Advance(16 * time.Millisecond)
 			}
 			if v != "" {
 				setStr(&viol, fmt.Sprintf("step %d (%s): %s", i+1, op, v))
@@ -110,6 +112,15 @@ type FSJob struct {
 	Cfg   int
 	First int
 	Long  bool
+	Age   bool // long histories over {1 byte, +16ms, +31ms}: the age of the active file, in steps shorter than MaxDuration
+}
+
+// LongOps is the alphabet of a long-history job.
+func (j FSJob) LongOps(c FSCfg) []string {
+	if j.Age {
+		return []string{"w1", "+16ms", "+31ms"}
+	}
+	return FSLongOps(c)
 }
 
 func FSJobList(tier string) []FSJob {
@@ -119,8 +130,11 @@ func FSJobList(tier string) []FSJob {
 			out = append(out, FSJob{Cfg: ci, First: oi})
 		}
 	}
-	for ci := range FSConfigs(tier) {
+	for ci, c := range FSConfigs(tier) {
 		out = append(out, FSJob{Cfg: ci, Long: true})
+		if c.MaxDuration > 0 {
+			out = append(out, FSJob{Cfg: ci, Long: true, Age: true})
+		}
 	}
 	return out
 }
@@ -171,7 +185,7 @@ func FSRunJob(tier string, j FSJob, c15 bool, deadline time.Time, replay []strin
 	depth := FSDepth(tier)
 	start := 1
 	if j.Long {
-		ops = FSLongOps(c)
+		ops = j.LongOps(c)
 		depth = FSLongDepth(tier)
 		start = 0
 		name += " (long histories, reduced alphabet)"
